@@ -38,23 +38,34 @@ for n in (4094, 4095, 4096, 10000):
     reg.append(case("m", O, "www 60 IN A ( ;" + "c" * n + "\n 1.2.3.4 )\n", recs=[WWW]))
 files["regression-iteration-cap.case"] = reg
 
-# ---- known findings (open): each line fails the oracle on the unchanged tree with exactly this class
-kf = ["# (ii) quotes are not recognised inside ( ... )  -> class quote-inside-list",
+# ---- regression: quoted strings inside ( ... ) (findings (ii)/(ii'), fix: commit 055beb6)
+rq = ["# before the repair: `( \"hello world\" )` loaded as the two strings `\"hello` and `world\"`,",
+      "# and a semicolon inside the quoted string started a comment (UnclosedList)",
       case("m", O, 'a 60 IN TXT ( "hello world" )\n', recs=[rec(name("a.example.com"), 16, 60, TXT(b"hello world"))]),
       case("m", O, 'a 60 IN TXT ( "abc" )\n', recs=[rec(name("a.example.com"), 16, 60, TXT(b"abc"))]),
-      "# (ii') ... so a semicolon inside such a string starts a comment -> class semicolon-inside-quoted-list-item",
       case("m", O, 'a 60 IN TXT ( "v=DKIM1; k=rsa" )\n', recs=[rec(name("a.example.com"), 16, 60, TXT(b"v=DKIM1; k=rsa"))]),
       case("m", O, 'c 60 IN CAA 0 issue ( "ca.example.net; account=230123" )\n',
            recs=[rec(name("c.example.com"), 257, 60, "CAA,0,0," + hx(b"issue") + "," + hx(b"ca.example.net; account=230123"))]),
-      "# (iii) \\DDD in a quoted string is decoded as (d1<<16)+(d2<<8)+d3 -> class decimal-escape-arithmetic",
+      case("m", O, 'a 60 IN TXT ( "p ) q" ; c "\n "line1\nline2" plain"x" "" "q\\"q" )\n',
+           recs=[rec(name("a.example.com"), 16, 60, TXT(b"p ) q", b"line1\nline2", b'plain"x"', b"", b'q"q'))]),
+      "# malformed: unclosed quote inside a group", case("m", O, 'a 60 IN TXT ( "open )\n'), case("m", O, 'a 60 IN TXT ( "open'),
+      ]
+files["regression-quote-inside-list.case"] = rq
+
+# ---- known findings (open): each line fails the oracle on the unchanged tree with exactly this class
+kf = ["# (iii) \\DDD in a quoted string is decoded as (d1<<16)+(d2<<8)+d3 -> class decimal-escape-arithmetic",
       case("e", O, 'a 60 IN TXT "\\065bc"\n', recs=[rec(name("a.example.com"), 16, 60, TXT(b"Abc"))]),
       case("e", O, 'a 60 IN TXT "tab\\009 ok" "\\255"\n', recs=[rec(name("a.example.com"), 16, 60, TXT(b"tab\t ok", b"\xff"))]),
+      case("e", O, 'a 60 IN TXT ( "\\065bc" )\n', recs=[rec(name("a.example.com"), 16, 60, TXT(b"Abc"))]),
       "# (iv) labels outside letters/digits/hyphen (and _-led labels) cannot be loaded -> class name-label-not-ldh",
       case("m", O, 'a_b 60 IN A 1.2.3.4\n', recs=[rec(nameb([b"a_b", b"example", b"com"]), 1, 60, A("1.2.3.4"))]),
-      case("m", O, 'a\;b 60 IN A 1.2.3.4\n', recs=[rec(nameb([b"a;b", b"example", b"com"]), 1, 60, A("1.2.3.4"))]),
       case("i", O, 'a\\032b 60 IN A 1.2.3.4\n', recs=[rec(nameb([b"a b", b"example", b"com"]), 1, 60, A("1.2.3.4"))]),
       case("m", O, '-a 60 IN A 1.2.3.4\n', recs=[rec(nameb([b"-a", b"example", b"com"]), 1, 60, A("1.2.3.4"))]),
       case("m", O, 'x 60 IN MX 10 mail+1\n', recs=[rec(name("x.example.com"), 15, 60, "MX,10," + nameb([b"mail+1", b"example", b"com"]))]),
+      "# (v) an escaped semicolon in a contiguous item is not honoured: the item ends there and the rest of the line",
+      "#     is a comment -> class escaped-semicolon-in-item (owner: no record and no error; RDATA name: a wrong record)",
+      case("m", O, 'a\\;b 60 IN A 1.2.3.4\n', recs=[rec(nameb([b"a;b", b"example", b"com"]), 1, 60, A("1.2.3.4"))]),
+      case("m", O, 'x 60 IN NS a\\;b\n', recs=[rec(name("x.example.com"), 2, 60, "N," + nameb([b"a;b", b"example", b"com"]))]),
       ]
 files["known-findings.case"] = kf
 
@@ -141,6 +152,11 @@ mal = ["# unbalanced / stray delimiters", ] + [case("m", O, t) for t in [
     "\"\" 60 A 1.1.1.1\n", "\"a b\" 60 A 1.1.1.1\n", "a \"60\" \"IN\" \"A\" \"1.1.1.1\"\n", "a 60 TXT (a)(b)\n", "a 60 TXT ((a))\n", "a 60 TXT ( a ;c )\n b )\n",
     "a 60 TXT ( a\x01 )\n", "x" * 64 + " 60 A 1.1.1.1\n", ".".join(["a" * 63] * 4) + ". 60 A 1.1.1.1\n", "", "\n", " ", ";",
 ]]
+mal += ["# RecordSet::insert rules (as repaired by 4cf469c / 24305ec): same data with a new TTL replaces, identical record ignored,",
+        "# identical CNAME is no change, different CNAME replaces, second SOA refused"] + [case("m", O, t) for t in [
+    "a 60 A 1.1.1.1\na 70 A 1.1.1.1\n", "a 60 A 1.1.1.1\nA 60 A 1.1.1.1\n", "a 60 A 1.1.1.1\na 60 A 2.2.2.2\na 70 A 1.1.1.1\n",
+    "a 60 CNAME x\nA 60 CNAME X\n", "a 60 CNAME x\na 70 CNAME x\n", "a 60 CNAME x\na 60 CNAME y\n", "a 60 NS n\na 60 CH NS N\n",
+    "a 60 MX 1 m\na 60 MX 1 M\na 70 MX 1 m\n", "a 60 SOA a b 1 2 3 4 5\nA 60 SOA a b 2 2 3 4 5\n"]]
 mal += ["# no origin at all", "zone m - " + hx(b"a 60 A 1.1.1.1\n"), "zone m - " + hx(b"a. 60 A 1.1.1.1\n"), "zone m - " + hx(b"$ORIGIN x.\na 60 A 1.1.1.1\n"),
         "# non-ASCII (implementation only)", case("m", O, "é 60 A 1.1.1.1\n"), case("m", O, "a 60 TXT \"é\u00a0\u2028\"\n"), case("m", O, "a\u00a060 A 1.1.1.1\n"),
         case("m", O, "a 60 TXT \"\\½\"\n"), case("m", O, "a 60 TXT \"\\٣٣٣\"\n")]
